@@ -9,7 +9,10 @@ Oracle    : live.get_component_configuration(c, raw=False, include_default=True,
             cold cache) - as dictionaries and leaf by leaf with the same type and repr (1 / 1.0 / True are
             different values); then the returned dict is wrecked in place and the query repeated: unchanged.
             Half of the value-carrying updates are tried as "equal twins" of the stored value (== but another
-            type, or None for a variable the layer does not define yet).
+            type, or None for a variable the layer does not define yet).  The second query of every pair (no
+            update in between: answered from the cache) is compared with from scratch as well; documents and
+            option setters use command.interpreter / workflowAttributes.repeatInterval, whose value decides
+            other fields (expandArguments, executable, arguments, isRepeat) in final steps of the resolution.
 Workload 2: some of the repository's own test modules run under a pytest plugin
             (checks/_c08_pytest_plugin.py) that attaches the same post-condition to every call of
             FlowIRConcrete.get_component_configuration.
@@ -36,12 +39,62 @@ from ref import c04_layering as ref  # noqa: E402
 PROP = "C08"
 KEY_REGEX = "C08:regex-metachar-component-name-not-invalidated"
 KEY_NEWPLAT = "C08:platform-created-by-global-setter-lacks-stages"
+KEY_ISREPEAT = "C08:isrepeat-not-rederived-outside-fully-resolved-query"
 HOSTILE_NAMES = ["a+b", "x$", "a?b"]
 NEW_PLATFORMS = ["brandnew", "p9"]
 EXTRA_COMP_NAMES = ["c", "c1", "c.x", "comp-A", "x", "xy", "x.y", "late", "late1"]
 TEST_MODULES = {"quick": ["tests/test_flowir.py"],
                 "thorough": ["tests/test_flowir.py", "tests/test_graph.py", "tests/test_dsl.py",
                              "tests/test_package_load.py", "tests/test_dosini.py", "tests/test_command.py"]}
+
+
+# Options whose value decides OTHER fields of the resolved configuration in a final step of the
+# resolution (documented: "8. Resolve interpreter option which may affect command.executable and
+# command.arguments", "Interpreters will never expand their arguments", "isRepeat ... its value depends
+# on repeatInterval"): what a cache stores must be the configuration AFTER those steps.
+DERIVED_PALETTE = [
+    (("command", "interpreter"), "interp", None),
+    (("command", "interpreter"), "interp", None),
+    (("command", "expandArguments"), "expand", None),
+    (("workflowAttributes", "repeatInterval"), "repeat", None),
+    (("workflowAttributes", "isRepeat"), "bool", None),
+]
+INTERPRETERS = ["bash", "javascript", "cwl", "cwlcmdline"]
+
+
+def _pick_option(r):
+    return r.choice(DERIVED_PALETTE) if r.random() < 0.3 else r.choice(PALETTE)
+
+
+def seed_derived(r, doc):
+    """Put command.interpreter / workflowAttributes.repeatInterval into the initial document: in a
+    component, a blueprint (inherited) or a platform override of a component."""
+    placed = []
+    comps = doc["components"]
+    for _ in range(r.choice([1, 1, 2])):
+        comp = r.choice(comps)
+        plat = r.choice(doc["platforms"])
+        where = r.choice(["component", "component", "default_global_blueprint", "platform_global_blueprint",
+                          "platform_stage_blueprint", "override"])
+        if r.random() < 0.75:
+            path, value = ("command", "interpreter"), r.choice(INTERPRETERS)
+        else:
+            path, value = ("workflowAttributes", "repeatInterval"), r.choice([5, 2.5, 0, "%(n2)s"])
+        if where == "component":
+            target = comp
+        elif where == "override":
+            target = comp.setdefault("override", {}).setdefault(plat, {})
+        else:
+            bp = doc["blueprint"].setdefault("default" if where.startswith("default") else plat, {})
+            if where.endswith("stage_blueprint"):
+                target = bp.setdefault("stages", {}).setdefault(comp["stage"], {})
+            else:
+                target = bp.setdefault("global", {})
+        ref.set_path(target, path, value)
+        if path[1] == "interpreter" and r.random() < 0.5:
+            comp.get("command", {}).pop("executable", None)     # the executable is then derived from the arguments
+        placed.append(where + ":" + path[1])
+    return placed
 
 
 # ----------------------------------------------------------------------------- operations
@@ -58,6 +111,12 @@ def _opt_value(r, path, kind, k):
         return [tag] * r.randrange(0, 3)
     if path[-1] == "imagePullPolicy":
         return r.choice(["Always", "Never", "IfNotPresent"])
+    if kind == "interp":
+        return r.choice(INTERPRETERS + ["bash", "bash", None, "perl"])      # None: unset; perl: not a known interpreter
+    if kind == "expand":
+        return r.choice(["double-quote", "none"])
+    if kind == "repeat":
+        return r.choice([None, 0, 5, 2.5, k + 1, "%(n2)s"])
     return r.random() < 0.5
 
 
@@ -162,6 +221,12 @@ def _component_description(r, gen, stage, name, k):
     comp = {"stage": stage, "name": name}
     comp.update(gen.options("comp", 0, stage, universal_only=True))
     comp.setdefault("command", {})["executable"] = "exe-h%d" % k
+    if r.random() < 0.3:
+        comp["command"]["interpreter"] = r.choice(INTERPRETERS)
+        if r.random() < 0.5:
+            del comp["command"]["executable"]
+    if r.random() < 0.15:
+        comp.setdefault("workflowAttributes", {})["repeatInterval"] = r.choice([0, 5, 2.5, "%(n2)s"])
     comp["variables"] = {n: _var_value(r, n, k) for n in VAR_ORDER if r.random() < 0.3}
     if r.random() < 0.5:
         plat = r.choice(gen.platforms)
@@ -203,7 +268,7 @@ def _draw_op(r, gen, state, k, hostile, wrapped):
             route = vname                      # no '#': the route names a component variable
             value = _var_value(r, vname, k)
         else:
-            path, pk, _ = r.choice(PALETTE)
+            path, pk, _ = _pick_option(r)
             route = "#" + ".".join(path)
             value = _opt_value(r, path, pk, k)
         return {"op": kind, "comp": cid, "route": route, "value": value}
@@ -225,7 +290,7 @@ def _draw_op(r, gen, state, k, hostile, wrapped):
     if kind == "edit_component_ref":
         x = r.random()
         if x < 0.4:
-            path, pk, _ = r.choice(PALETTE)
+            path, pk, _ = _pick_option(r)
             return {"op": kind, "comp": cid, "path": list(path), "value": _opt_value(r, path, pk, k)}
         if x < 0.7:
             return {"op": kind, "comp": cid, "path": ["variables", vname], "value": _var_value(r, vname, k)}
@@ -309,11 +374,48 @@ def apply_op(live, cfg, op):
 
 # ----------------------------------------------------------------------------- oracle
 
-def outcome(obj, cid, platform):
+def outcome(obj, cid, platform, **flags):
+    kw = {"raw": False, "include_default": True}
+    kw.update(flags)
     try:
-        return {"ok": obj.get_component_configuration(tuple(cid), raw=False, include_default=True, platform=platform)}
+        return {"ok": obj.get_component_configuration(tuple(cid), platform=platform, **kw)}
     except Exception as e:
         return {"raised": type(e).__name__, "message": str(e)[:300]}
+
+
+def wreck_marks(cfg):
+    """True when the damage wreck() does to a returned configuration is visible in `cfg`."""
+    if isinstance(cfg, dict):
+        return "__wrecked__" in cfg or any(wreck_marks(v) for v in cfg.values())
+    if isinstance(cfg, (list, tuple)):
+        return any(wreck_marks(v) for v in cfg)
+    return isinstance(cfg, str) and cfg == "WRECKED"
+
+
+def stale_isrepeat_only(live, cid, got, expect, flags):
+    """Structural classifier of KEY_ISREPEAT: a resolved query that is not the fully resolved variant
+    differs from scratch in workflowAttributes.isRepeat and nowhere else, and the component's own
+    description holds a repeatInterval whose derived isRepeat is not the isRepeat stored next to it."""
+    if flags["include_default"] and not flags["is_primitive"]:
+        return False
+    g, e = copy.deepcopy(got), copy.deepcopy(expect)
+    try:
+        gi, ei = g["workflowAttributes"].pop("isRepeat"), e["workflowAttributes"].pop("isRepeat")
+    except (KeyError, AttributeError, TypeError):
+        return False
+    if typed(g) != typed(e) or typed(gi) == typed(ei):
+        return False
+    try:
+        own = live.get_component(tuple(cid)).get("workflowAttributes") or {}
+    except Exception:
+        return False
+    if "repeatInterval" not in own:
+        return False
+    return typed(own.get("isRepeat")) != typed(own["repeatInterval"] not in [None, 0])
+
+
+def fmt_leaf(x):
+    return "%s %s" % tuple(x) if isinstance(x, tuple) and len(x) == 2 else repr(x)
 
 
 def same(a, b):
@@ -384,6 +486,9 @@ def run_history(hist, w, limit_ops=None):
     if hostile:
         for i, comp in enumerate(doc["components"][:2]):
             comp["name"] = HOSTILE_NAMES[(index + i) % len(HOSTILE_NAMES)]
+    if hist.get("seed_derived"):
+        for where in seed_derived(vlib.rng(PROP, "derived", index), doc):
+            w.count("initial_document_" + where)
     platform0 = doc["platforms"][hist["platform0_index"] % len(doc["platforms"])]
     live = FlowIRConcrete(copy.deepcopy(doc), platform0, None)
     cfg = None
@@ -423,6 +528,12 @@ def run_history(hist, w, limit_ops=None):
         try:
             apply_op(live, cfg, op)
             w.count("ops_applied")
+            target = op.get("route", "#" + ".".join(map(str, op.get("path", []))))
+            if target == "#command.interpreter":
+                unset = op["op"] in ("remove_component_option", "conf_remove_option") or op.get("value") is None
+                w.count("interpreter_unset_during_history" if unset else "interpreter_set_during_history")
+            elif target == "#workflowAttributes.repeatInterval":
+                w.count("repeat_interval_changed_during_history")
             if op.get("twin"):
                 w.count("twin_updates_applied")
                 w.count("twin_" + op["twin"])
@@ -430,6 +541,32 @@ def run_history(hist, w, limit_ops=None):
         except Exception as e:
             w.count("ops_raised")
             w.count("ops_raised_" + type(e).__name__)
+        if op["op"] == "query" and not op["raw"]:
+            # the same resolved query with these flags, twice, against from scratch with the same flags
+            flags = {"include_default": op["include_default"], "is_primitive": op["is_primitive"]}
+            fresh_q = FlowIRConcrete(live.raw(), live.active_platform, None)
+            expect = outcome(fresh_q, op["comp"], op["platform"], **flags)
+            for n in (1, 2):
+                got = outcome(live, op["comp"], op["platform"], **flags)
+                w.evaluated()
+                w.count("flagged_queries_compared")
+                if not same(got, expect) or ("ok" in got and typed(got["ok"]) != typed(expect["ok"])):
+                    if "ok" in got and "ok" in expect:
+                        d = first_diff(typed(got["ok"]), typed(expect["ok"]))
+                        what = "has %s = %s, from scratch %s" % (".".join(map(str, d[0])), fmt_leaf(d[1]), fmt_leaf(d[2]))
+                    else:
+                        what = "gives %s, from scratch %s" % (got.get("raised") or "a configuration",
+                                                               expect.get("raised") or "a configuration")
+                    key = None
+                    if "ok" in got and "ok" in expect and stale_isrepeat_only(live, op["comp"], got["ok"], expect["ok"], flags):
+                        key = KEY_ISREPEAT
+                    w.violation("query #%d (include_default=%s, is_primitive=%s) of %s on %r %s" % (
+                        n, op["include_default"], op["is_primitive"], tuple(op["comp"]), op["platform"], what),
+                        {"history": dict(hist, ops=executed), "after_op": k, "component": list(op["comp"]),
+                         "platform": op["platform"], "flags": flags}, finding_key=key)
+                    if key is None:
+                        return
+                    break
         do_checkpoint = op.get("checkpoint", None)
         if do_checkpoint is None:
             do_checkpoint = r.random() < 0.85
@@ -499,13 +636,33 @@ def run_history(hist, w, limit_ops=None):
                     continue
                 snapshot = copy.deepcopy(a["ok"])
                 wreck(a["ok"])
+                # query #2 of the same (component, platform, flags), no update in between: a cache hit
                 again = outcome(live, cid, plat)
                 w.count("private_copy_probes")
-                if "ok" not in again or again["ok"] != snapshot:
-                    d = first_diff(again.get("ok", {}), snapshot)
-                    w.violation("changing the configuration returned for %s on %r changed the next query at %s" % (
-                        cid, plat, ".".join(map(str, d[0])) if d else "?"), witness)
+                w.count("cache_hit_queries_compared")
+                if "ok" not in again or again["ok"] != snapshot or typed(again["ok"]) != tb:
+                    if "ok" in again and wreck_marks(again["ok"]):
+                        d = first_diff(again["ok"], snapshot)
+                        w.violation("changing the configuration returned for %s on %r changed the next query at %s" % (
+                            cid, plat, ".".join(map(str, d[0])) if d else "?"), witness)
+                    elif "ok" in again:
+                        d = first_diff(typed(again["ok"]), tb)
+                        w.violation("after %s: query #2 of %s on %r with no update in between (answered from the cache) "
+                                    "has %s = %s, from scratch %s; query #1 agreed with from scratch%s" % (
+                                        oplabel, cid, plat, ".".join(map(str, d[0])), fmt_leaf(d[1]), fmt_leaf(d[2]),
+                                        " (command.interpreter = %r)" % snapshot["command"]["interpreter"]
+                                        if (snapshot.get("command") or {}).get("interpreter") is not None else ""),
+                                    witness)
+                    else:
+                        w.violation("after %s: query #2 of %s on %r with no update in between gives %s, query #1 and "
+                                    "from scratch a configuration" % (oplabel, cid, plat, again.get("raised")), witness)
                     return
+                if (snapshot.get("command") or {}).get("interpreter") is not None:
+                    w.count("interpreter_components_queried_twice")
+                    if (snapshot.get("command") or {}).get("expandArguments") == "none":
+                        w.count("interpreter_components_expand_none")
+                if (snapshot.get("workflowAttributes") or {}).get("isRepeat") is True:
+                    w.count("repeating_components_queried_twice")
         if live.raw() != raw0:
             w.violation("queries / changes to returned configurations altered the description itself after %s" % op["op"],
                         {"history": dict(hist, ops=executed), "after_op": k})
@@ -519,7 +676,7 @@ def history_header(index):
     r = vlib.rng(PROP, "header", index)
     return {"index": index, "hostile": index % 5 == 4, "wrapped": r.random() < 0.5,
             "with_undefined": r.random() < 0.1, "n_ops": r.randrange(10, 61),
-            "platform0_index": r.choice([0, 0, 1, 2])}
+            "platform0_index": r.choice([0, 0, 1, 2]), "seed_derived": r.random() < 0.7}
 
 
 def run_job(job, w):
@@ -616,6 +773,13 @@ def main():
             "expression metacharacters (+ $ ?): the two known mechanisms cannot trigger in the other 4 of 5",
             "equality is Python == on the returned dictionaries plus the same type and repr of every scalar leaf "
             "(1, 1.0 and True are different values of a configuration) / the exception class",
+            "every checkpoint queries each (component, platform) twice with no update in between; both answers are "
+            "compared with from scratch (the second is a cache hit). Queries drawn as operations with other flags "
+            "(include_default / is_primitive) are compared, twice, only when raw=False (a raw query is not a resolved "
+            "configuration and the constructor normalises component descriptions)",
+            "command.interpreter / command.expandArguments / workflowAttributes.repeatInterval / isRepeat come from the "
+            "initial document (component, blueprints, platform override; 70 % of the histories) and from the option "
+            "setters; interpreter values include None (unset) and one unknown name",
             "equal-twin updates (new value == stored value, other type) are drawn for every variable and option "
             "setter; None is only given to variables the written layer does not define yet, never to options",
         ])
@@ -647,6 +811,11 @@ def main():
     c.floor("twin_updates_checked", 300 if quick else 8000)
     c.floor("twin_via_set_platform_stage_variable", 30 if quick else 800)
     c.floor("compared_typed", 6000 if quick else 150000)
+    c.floor("cache_hit_queries_compared", 6000 if quick else 150000)
+    c.floor("interpreter_components_queried_twice", 3000 if quick else 75000)
+    c.floor("repeating_components_queried_twice", 1000 if quick else 25000)
+    c.floor("interpreter_set_during_history", 40 if quick else 1000)
+    c.floor("flagged_queries_compared", 500 if quick else 12000)
     c.floor("contract_evaluations", 50 if quick else 300)
     sys.exit(c.finish())
 
